@@ -84,7 +84,7 @@ func runHB(c HBCase) error {
 }
 
 func TestInvalidHeartbeats(t *testing.T) {
-	fx.Run(t, fx.Spec[HBCase]{Prop: "C04", Name: "invalid_heartbeats", Quick: 16, Thorough: 300, Gen: genHB, Run: runHB, Retry: true, ShrinkTime: "40s",
+	fx.Run(t, fx.Spec[HBCase]{Prop: "C04", Name: "invalid_heartbeats", Journal: true, Quick: 16, Thorough: 300, Gen: genHB, Run: runHB, Retry: true, ShrinkTime: "40s",
 		Class: func(c HBCase) fx.Class {
 			return fx.Class{NonTrivial: true, Fingerprint: fmt.Sprintf("%+v", c), Labels: []string{"key=" + c.Key}}
 		}})
